@@ -224,7 +224,15 @@ pub fn sweep_trace(main: &ColMatrix<Felt>, mon: &Monitor, n_exec: usize, len: us
             *c += 1;
             for (name, col, in_next) in cells.iter() {
                 let v = if *in_next { next[*col].as_int() } else { cur[*col].as_int() };
+                let other = if *in_next { cur[*col].as_int() } else { next[*col].as_int() };
+                let component = !key.starts_with("op|");
                 for (kind, val) in menu_kinds(v, rr.next()) {
+                    // in chiplet / range rows, giving a cell the value the same column holds in the
+                    // other row of the pair turns a "changes" transition into a "stays" transition,
+                    // which can be a valid transition of another kind: not a deviation to judge
+                    if component && val == other {
+                        continue;
+                    }
                     let rej = rejected(mon, &cur, &next, r, *col, *in_next, val, &mut buf);
                     let e = tally.entry(key.clone()).or_default().entry(name.clone()).or_insert((0, 0));
                     e.0 += 1;
@@ -437,6 +445,10 @@ impl Prop for C04 {
                 main.read_row_into(*rr + 1, &mut next);
                 let hv = if in_next { next[col].as_int() } else { cur[col].as_int() };
                 if let Some(x) = value_of_kind(kind, hv, *val) {
+                    let other = if in_next { cur[col].as_int() } else { next[col].as_int() };
+                    if !key.starts_with("op|") && x == other {
+                        continue;
+                    }
                     tried += 1;
                     if !rejected(&mon, &cur, &next, *rr, col, in_next, x, &mut buf) {
                         passed += 1;
@@ -447,7 +459,8 @@ impl Prop for C04 {
                 out.count("probe:miss-on-a-single-row-not-judged");
                 continue;
             }
-            if passed * 2 < tried {
+            // on few rows every row must agree; on many, at least half
+            if (tried <= 3 && passed < tried) || passed * 2 < tried {
                 out.count("probe:miss-is-a-value-coincidence");
                 continue;
             }
